@@ -124,9 +124,13 @@ def job(task):
             return dict(id=mid, prop=prop, function=qual, mutation=desc, status="does-not-compile")
         rc, out = run(f"cd {d} && /venv/bin/python -m pytest -q -p no:cacheprovider --doctest-modules {relfile} 2>&1 | tail -1")
         suite = "passed" in out and "failed" not in out and "error" not in out
-        env = dict(os.environ, PYTTB_REPO=d, VERIF_OUT=os.path.join(d, "out"), VERIF_ONLY_FUNCS=qual, PYVC_WORKERS="3")
+        env = dict(os.environ, PYTTB_REPO=d, VERIF_OUT=os.path.join(d, "out"), VERIF_ONLY_FUNCS=qual, PYVC_WORKERS="3", VERIF_NO_RETRY="1")
         t0 = time.time()
-        rc, out = run(f"{HERE}/check {prop} --tier quick", env=env)
+        try:
+            rc, out = run(f"{HERE}/check {prop} --tier quick", env=env, timeout=900)
+        except subprocess.TimeoutExpired:
+            return dict(id=mid, prop=prop, function=qual, mutation=desc, doctests_pass=suite, exit=None, proof_killed=False, standin_killed=False,
+                        standins=[], refuted=0, undecided=0, checker_errors=["timeout after 900 s"], wall=900.0, first=[])
         lines = [l for l in out.splitlines() if l.startswith(("VIOLATION", "UNDECIDED", "CHECKER-ERROR", "SUMMARY", "KNOWN"))]
         obl = [l for l in lines if (l.startswith("VIOLATION") and "-obl-" in l) or l.startswith("UNDECIDED")]
         sti = sorted({l.split("check=")[1].split()[0] for l in lines if l.startswith("VIOLATION") and "check=" in l})
@@ -189,7 +193,7 @@ def main():
         with ThreadPoolExecutor(max_workers=a.jobs) as ex:
             for r in ex.map(job, tasks):
                 res.append(r)
-                print(json.dumps(r)[:400], flush=True)
+                print(json.dumps(r), flush=True)
     finally:
         shutil.rmtree(root, ignore_errors=True)
     os.makedirs(os.path.join(HERE, "selftest"), exist_ok=True)
